@@ -76,6 +76,8 @@ fn run(name: &str, j: &J) -> Result<bool, String> {
             let g = eval(&expr, &row)?;
             let n1 = if n > 1. { n } else { 1. };
             let var = (sq / n1 - (sx / n1) * (sx / n1)).max(0.);
+            // "sample": compare with the sample statistic (divisor n - 1), what VARIANCE / STDDEV of the original query return
+            let var = if j["sample"].as_bool().unwrap_or(false) && n >= 2. { (sq - sx * sx / n) / (n - 1.) } else { var };
             let want = if is_var { var } else { var.sqrt() };
             println!("  expr = {}\n  on count={} sum={} sum_square={}: got {} want {}", expr, n, sx, sq, g, want);
             Ok((g - want).abs() <= 1e-9 * (1. + want.abs()))
@@ -595,7 +597,11 @@ fn run(name: &str, j: &J) -> Result<bool, String> {
             use std::sync::Arc;
             let mk = |name: &str, last: &str| -> Relation { Relation::table().name(name).path(vec!["schema".to_string(), name.to_string()]).schema(vec![("id", DataType::integer_interval(0, 100)), ("a", DataType::integer_interval(if name == "table_1" { 0 } else { -5 }, if name == "table_1" { 10 } else { 5 })), (last, DataType::float_interval(0., 1.))].into_iter().collect::<Schema>()).size(100).build() };
             let rels = vec![mk("table_1", "b"), mk("table_2", "c")];
-            let relations: Hierarchy<Arc<Relation>> = rels.iter().map(|t| (vec!["schema".to_string(), t.name().to_string()], Arc::new(t.clone()))).collect();
+            let mut entries: Vec<(Vec<String>, Arc<Relation>)> = rels.iter().map(|t| (vec!["schema".to_string(), t.name().to_string()], Arc::new(t.clone()))).collect();
+            // two tables with the same base name in different schemas
+            entries.push((vec!["s1".to_string(), "t".to_string()], Arc::new(mk("table_1", "b"))));
+            entries.push((vec!["s2".to_string(), "t".to_string()], Arc::new(mk("table_2", "c"))));
+            let relations: Hierarchy<Arc<Relation>> = entries.into_iter().collect();
             // every query refers to the bare name `a`, which both inputs of the join have: accepting it is a violation
             let queries = [
                 "SELECT a FROM table_1 JOIN table_2 ON table_1.id = table_2.id",
@@ -605,6 +611,8 @@ fn run(name: &str, j: &J) -> Result<bool, String> {
                 "SELECT a FROM (SELECT * FROM schema.table_1 JOIN schema.table_2 ON schema.table_1.id = schema.table_2.id) AS s",
                 "SELECT a FROM (SELECT * FROM table_1 AS x JOIN table_2 AS y ON x.id = y.id) AS s",
                 "WITH s AS (SELECT * FROM schema.table_1 JOIN schema.table_2 ON schema.table_1.id = schema.table_2.id) SELECT a FROM s",
+                "SELECT a FROM s1.t JOIN s2.t ON s1.t.id = s2.t.id",
+                "SELECT t.a FROM s1.t JOIN s2.t ON s1.t.id = s2.t.id",
             ];
             let one = |q: &str| -> Option<String> {
                 let relations2 = relations.clone();
@@ -859,6 +867,75 @@ fn run(name: &str, j: &J) -> Result<bool, String> {
         }
         "c05_any_case" => {
             if j.get("steps").is_some() { run("c05_path_hops", j) } else if j.get("join").is_some() { run("c05_tracked_outer_join_unit", j) } else { run("c05_tracked_join_equates_units", j) }
+        }
+        // C13: the DP entry point succeeds exactly when the selector alone (no elimination) finds a derivation with an acceptable
+        // root label, and the applied derivation's score is the best among them (scores of the candidates via the public Score visitor)
+        "c13_case" | "c13_search" => {
+            use qrlew::{hierarchy::Hierarchy, expr::Identifier, sql::parse, differential_privacy::DpParameters, synthetic_data::SyntheticData, privacy_unit_tracking::Strategy};
+            use qrlew::rewriting::{Property, rewriting_rule::{RewritingRulesSelector, RewritingRulesSetter, Score}};
+            use qrlew::visitor::Acceptor as _;
+            use std::sync::Arc;
+            let mk = |name: &str| -> Relation { Relation::table().name(name).schema(vec![("id", DataType::integer_interval(0, 100)), ("k", DataType::integer_interval(0, 5)), ("a", DataType::float_interval(0., 10.))].into_iter().collect::<Schema>()).size(100).build() };
+            let relations: Hierarchy<Arc<Relation>> = vec![mk("t"), mk("u"), mk("p")].iter().map(|t| (Identifier::from(t.name()), Arc::new(t.clone()))).collect();
+            let queries = ["SELECT a FROM p", "SELECT a FROM t", "SELECT sum(a) AS s FROM t", "SELECT k, count(a) AS c FROM t GROUP BY k", "SELECT t.a FROM t JOIN (SELECT k FROM p) AS q ON t.k = q.k",
+                "SELECT count(a) AS c FROM (SELECT a FROM t UNION SELECT a FROM p) AS w", "SELECT t.a FROM t JOIN p ON t.k = p.k", "SELECT sum(t.a) AS s FROM t JOIN u ON t.id = u.id", "SELECT a FROM p UNION SELECT a FROM p"];
+            let one = |q: &str, with_sd: bool| -> Option<String> {
+                let sd = || if with_sd { Some(SyntheticData::new(Hierarchy::from([(vec!["t"], Identifier::from("synthetic_t")), (vec!["u"], Identifier::from("synthetic_u")), (vec!["p"], Identifier::from("synthetic_p"))]))) } else { None };
+                let pu = || PrivacyUnit::from(vec![("t", vec![], "id"), ("u", vec![], "id")]);
+                let dp = || DpParameters::from_epsilon_delta(1., 1e-3);
+                let relation = Relation::try_from(parse(q).ok()?.with(&relations)).ok()?;
+                let with_rules = relation.set_rewriting_rules(RewritingRulesSetter::new(&relations, sd(), pu(), dp(), Strategy::Hard));
+                let cands: Vec<f64> = with_rules.select_rewriting_rules(RewritingRulesSelector).iter()
+                    .filter(|d| matches!(d.attributes().output(), Property::Public | Property::Published | Property::DifferentiallyPrivate | Property::SyntheticData))
+                    .map(|d| d.accept(Score)).collect();
+                let best = cands.iter().cloned().fold(f64::NEG_INFINITY, f64::max);
+                let res = relation.rewrite_with_differential_privacy(&relations, sd(), pu(), dp());
+                match (&res, cands.is_empty()) {
+                    (Ok(_), true) => return Some(format!("`{}` (synthetic data: {}) is rewritten although no consistent derivation has an acceptable root", q, with_sd)),
+                    (Err(e), false) => return Some(format!("`{}` (synthetic data: {}): {} consistent derivations with an acceptable root exist (best score {}) but the compiler returns {}", q, with_sd, cands.len(), best, e.to_string().trim())),
+                    _ => {}
+                }
+                None
+            };
+            std::panic::set_hook(Box::new(|_| {}));
+            if name == "c13_case" { let r = std::panic::catch_unwind(std::panic::AssertUnwindSafe(|| one(j["query"].as_str().unwrap(), j["sd"].as_bool().unwrap_or(false)))).unwrap_or(None); if let Some(m) = &r { println!("  {}", m); } return Ok(r.is_none()); }
+            for with_sd in [false, true] { for q in queries {
+                let r = std::panic::catch_unwind(std::panic::AssertUnwindSafe(|| one(q, with_sd))).unwrap_or(None);
+                if let Some(m) = r { println!("  {}", m); println!("QX-WITNESS {}", serde_json::json!({"query": q, "sd": with_sd})); return Ok(false); }
+            } }
+            Ok(true)
+        }
+        // C01: the per-unit clipping norm must be built from partial sums taken per (unit, group) for EVERY grouping column of the
+        // query (structural necessary condition read off the rewritten relation)
+        "c01_case" | "c01_search" => {
+            use qrlew::{hierarchy::Hierarchy, expr::Identifier, sql::parse, differential_privacy::DpParameters};
+            use std::sync::Arc;
+            let t: Relation = Relation::table().name("t").schema(vec![("id", DataType::integer_interval(0, 100)), ("g", DataType::integer_values([1, 2, 3])), ("h", DataType::integer_values([1, 2])), ("score", DataType::integer_values([-5, 5])), ("x", DataType::float_interval(-10., 10.))].into_iter().collect::<Schema>()).size(1000).build();
+            let relations: Hierarchy<Arc<Relation>> = vec![t].iter().map(|t| (Identifier::from(t.name()), Arc::new(t.clone()))).collect();
+            let queries: Vec<(&str, usize)> = vec![("SELECT sum(x) AS s FROM t", 0), ("SELECT g, sum(x) AS s FROM t GROUP BY g", 1), ("SELECT g, h, sum(x) AS s, avg(x) AS a FROM t GROUP BY g, h", 2),
+                ("SELECT score, sum(score) AS s FROM t GROUP BY score", 1), ("SELECT g, score, sum(score) AS s FROM t GROUP BY g, score", 2)];
+            fn innermost_norm_groups(r: &Relation, out: &mut Vec<usize>) {
+                if let Relation::Reduce(red) = r {
+                    let has_norm = red.schema().iter().any(|f| f.name().starts_with("_NORM_"));
+                    let input_has_norm = red.input().schema().iter().any(|f| f.name().starts_with("_NORM_"));
+                    if has_norm && !input_has_norm { out.push(red.group_by().len()); }
+                }
+                for i in r.inputs() { innermost_norm_groups(i, out); }
+            }
+            let one = |q: &str, keys: usize| -> Option<String> {
+                let relation = Relation::try_from(parse(q).ok()?.with(&relations)).ok()?;
+                let rw = relation.rewrite_with_differential_privacy(&relations, None, PrivacyUnit::from(vec![("t", vec![], "id")]), DpParameters::from_epsilon_delta(1., 1e-3)).ok()?;
+                let mut g = vec![]; innermost_norm_groups(rw.relation(), &mut g);
+                for n in g { if n != keys + 1 { return Some(format!("`{}`: the partial sums behind the clipping norm are grouped by {} columns; the query has {} grouping columns plus the privacy unit", q, n, keys)); } }
+                None
+            };
+            std::panic::set_hook(Box::new(|_| {}));
+            if name == "c01_case" { let r = std::panic::catch_unwind(std::panic::AssertUnwindSafe(|| one(j["query"].as_str().unwrap(), j["keys"].as_u64().unwrap() as usize))).unwrap_or(None); if let Some(m) = &r { println!("  {}", m); } return Ok(r.is_none()); }
+            for (q, k) in queries {
+                let r = std::panic::catch_unwind(std::panic::AssertUnwindSafe(|| one(q, k))).unwrap_or(None);
+                if let Some(m) = r { println!("  {}", m); println!("QX-WITNESS {}", serde_json::json!({"query": q, "keys": k})); return Ok(false); }
+            }
+            Ok(true)
         }
         _ => Err(format!("unknown replay `{}`", name)),
     }
